@@ -659,6 +659,9 @@ class sptensor:
             searchsubs = np.array(searchsubs[np.newaxis, :])
             p = searchsubs.shape[0]
 
+        if searchsubs.shape[1] != self.ndims:
+            assert False, "Subscripts must have one column per mode. Invalid subscripts"
+
         # Check that all subscripts are positive and less than the max
         invalid = (searchsubs < 0) | (searchsubs >= np.array(self.shape))
         badloc = np.where(np.sum(invalid, axis=1) > 0)
